@@ -1,5 +1,8 @@
 import Chartparse.Proofs.ReLyric
 import Chartparse.Proofs.ReNorm
+import Chartparse.Proofs.ReLine
+import Chartparse.Model.Dispatch
+import Chartparse.Proofs.DispatchProofs
 /-! Property theorems of C09 (statements only; helper lemmas live in `Proofs/`). -/
 namespace Chartparse.Props.C09
 open Chartparse Chartparse.Rx
@@ -10,5 +13,48 @@ theorem lyric_accept :
     lyricRe.matchGroups (p ++ (t ++ ([32, 61, 32, 69, 32, 34, 108, 121, 114, 105, 99, 32] ++ (v ++ (34 :: q)))))
       = some [(2, v), (1, t)] :=
   @Chartparse.Rx.lyric_accept
+
+theorem gen_lyric_is_template : Gen.lyricRe.norm = lyricT.norm := by decide
+theorem gen_section_is_template : Gen.sectionRe.norm = sectionT.norm := by decide
+theorem gen_text_is_template : Gen.textRe.norm = textT.norm := by decide
+
+/-- obligation: the events section offers its kinds as lyric, section, text (recorded from a real parse) -/
+theorem gen_events_kind_order : Gen.eventsKindOrder = [6, 7, 8] := by decide
+
+theorem C09_lyric_accept (p t v q : Str) (hp : AllIn .space p) (ht : AllIn .digit t) (ht0 : t ≠ [])
+    (hv : AllIn .any v) (hq : AllIn .space q) :
+    Gen.lyricRe.matchGroups (p ++ (t ++ ([32, 61, 32, 69, 32, 34, 108, 121, 114, 105, 99, 32] ++ (v ++ 34 :: q))))
+      = some [(2, v), (1, t)] := by
+  rw [matchGroups_of_norm_eq gen_lyric_is_template]; exact Chartparse.Rx.lyric_accept' p t v q hp ht ht0 hv hq
+
+theorem C09_section_accept (p t v q : Str) (hp : AllIn .space p) (ht : AllIn .digit t) (ht0 : t ≠ [])
+    (hv : AllIn .any v) (hq : AllIn .space q) :
+    Gen.sectionRe.matchGroups (p ++ (t ++ ([32, 61, 32, 69, 32, 34, 115, 101, 99, 116, 105, 111, 110, 32] ++ (v ++ 34 :: q))))
+      = some [(2, v), (1, t)] := by
+  rw [matchGroups_of_norm_eq gen_section_is_template]; exact Chartparse.Rx.section_accept p t v q hp ht ht0 hv hq
+
+theorem C09_text_accept (p t v q : Str) (hp : AllIn .space p) (ht : AllIn .digit t) (ht0 : t ≠ [])
+    (hv : AllIn (.notLit 34) v) (hq : AllIn .space q) :
+    Gen.textRe.matchGroups (p ++ (t ++ ([32, 61, 32, 69, 32, 34] ++ (v ++ 34 :: q)))) = some [(2, v), (1, t)] := by
+  rw [matchGroups_of_norm_eq gen_text_is_template]; exact Chartparse.Rx.text_accept p t v q hp ht ht0 hv hq
+
+/-- C09, dispatch: a `lyric v` line is classified as a lyric (position 0 of the kind order) carrying `v`, whatever
+    the other two recognisers would say — first match wins -/
+theorem C09_lyric_dispatch (p t v q : Str) (hp : AllIn .space p) (ht : AllIn .digit t) (ht0 : t ≠ [])
+    (hv : AllIn .any v) (hq : AllIn .space q) :
+    Dsp.classify (Gen.eventsKindOrder.map decodeKind)
+      (p ++ (t ++ ([32, 61, 32, 69, 32, 34, 108, 121, 114, 105, 99, 32] ++ (v ++ 34 :: q)))) 0
+      = some (0, .ev 6 (intOf t) v) := by
+  rw [gen_events_kind_order]
+  simp only [List.map, Dsp.classify, decodeKind, kindRe]
+  rw [C09_lyric_accept p t v q hp ht ht0 hv hq]
+  simp [grpD, grp]
+
+/-- why the order obligation exists: offered first, the text recogniser claims a (quote-free) lyric line whole -/
+theorem C09_order_matters :
+    Dsp.classify ([8, 6, 7].map decodeKind) (cp "0 = E \"lyric la\"") 0 = some (0, .ev 8 0 (cp "lyric la")) := by decide
+
+/-- non-vacuity: a lyric with inner quotes and blanks, Arabic-Indic tick -/
+example : decodeKind 6 (cp "  ١٢ = E \"lyric say \"hi\" \" ") = some (.ev 6 12 (cp "say \"hi\" ")) := by decide
 
 end Chartparse.Props.C09
